@@ -2,7 +2,7 @@
 timedelta durations, convert to JSON and back, and record everything as limbs for spec/AwEventTrace.tla."""
 import json
 import random
-from datetime import date, datetime, timedelta, timezone
+from datetime import date, datetime, timedelta, timezone, tzinfo
 
 from . import common
 
@@ -36,6 +36,43 @@ def dname(data):
     return _names[k]
 
 
+class FoldTz(tzinfo):
+    """a zone in its repeated (fall-back) hour, PEP 495: the offset depends on the datetime's fold attribute"""
+    def __init__(self, off0, off1):
+        self.off = (off0, off1)
+
+    def utcoffset(self, dt):
+        return timedelta(minutes=self.off[1 if dt is not None and dt.fold else 0])
+
+    def dst(self, dt):
+        return timedelta(0)
+
+    def tzname(self, dt):
+        return "FOLD"
+
+
+def build_ts(rep, d, s, us, off):
+    tz = timezone(timedelta(minutes=off))
+    local = datetime(1970, 1, 1, tzinfo=tz) + timedelta(days=d, seconds=s, microseconds=us)
+    if rep == "dt":
+        return local
+    if rep == "dtfold1":      # second occurrence of the wall-clock time: the offset that applies is `off`
+        return local.replace(tzinfo=FoldTz(min(off + 60, 1439), off), fold=1)
+    if rep == "dtfold0":      # first occurrence
+        return local.replace(tzinfo=FoldTz(off, max(off - 60, -1439)), fold=0)
+    if rep == "iso":
+        ts = local.isoformat()
+        if us % 100000 == 0 and us:
+            ts = ts.replace(".%06d" % us, ".%d" % (us // 100000))        # one fractional digit
+        elif us % 1000 == 0 and us:
+            ts = ts.replace(".%06d" % us, ".%03d" % (us // 1000))        # millisecond precision
+        return ts
+    if rep == "isoZ":
+        # only meaningful for offset 0: write the trailing Z
+        return local.replace(tzinfo=None).isoformat() + "Z"
+    raise ValueError(rep)
+
+
 def one(case):
     """case: (rep, d, s, us, off, dkind, dneg, ds, dus, data, id)"""
     global _schema
@@ -44,22 +81,9 @@ def one(case):
     import jsonschema
     if _schema is None:
         _schema = get_json_schema("event")
-    rep, d, s, us, off, dkind, dneg, ds, dus, data, eid = case
-    tz = timezone(timedelta(minutes=off))
-    local = datetime(1970, 1, 1, tzinfo=tz) + timedelta(days=d, seconds=s, microseconds=us)
-    if rep == "dt":
-        ts = local
-    elif rep == "iso":
-        ts = local.isoformat()
-        if us % 100000 == 0 and us:
-            ts = ts.replace(".%06d" % us, ".%d" % (us // 100000))        # one fractional digit
-        elif us % 1000 == 0 and us:
-            ts = ts.replace(".%06d" % us, ".%03d" % (us // 1000))        # millisecond precision
-    elif rep == "isoZ":
-        # only meaningful for offset 0: write the trailing Z
-        ts = local.replace(tzinfo=None).isoformat() + "Z"
-    else:
-        ts = local.strftime("%Y-%m-%dT%H:%M:%S") + (".%06d" % us) + ("%+03d:%02d" % (off // 60 if off >= 0 else -((-off) // 60), abs(off) % 60) if off % 60 == 0 or True else "")
+    setcase = case[11] if len(case) > 11 else None
+    rep, d, s, us, off, dkind, dneg, ds, dus, data, eid = case[:11]
+    ts = build_ts(rep, d, s, us, off)
     sign = -1 if dneg else 1
     if dkind == "int":
         dur = sign * ds
@@ -87,6 +111,14 @@ def one(case):
     # the JSON form follows the event: change the data dict in place (no setter is involved) and serialise again
     e.data["added-later"] = [1, {"k": "v"}]
     rec["data_now"] = dname(e.data)
+    rec["inp2"] = rec["inp"]
+    if setcase is not None:      # a new instant (and duration) through the public setters, after the event has been serialised once
+        rep2, d2, s2, us2, off2, newdur = setcase
+        e.timestamp = build_ts(rep2, d2, s2, us2, off2)
+        rec["inp2"] = limbs_in(d2, s2, us2, off2)
+        if newdur is not None:
+            e.duration = timedelta(seconds=newdur[0], microseconds=newdur[1])
+    rec["out_set"] = limbs_out(e.timestamp)
     rec["dur_now"] = dur_limbs(e.duration)
     e4 = Event(**json.loads(e.to_json_str()))
     rec.update(out4=limbs_out(e4.timestamp), dout4=dur_limbs(e4.duration), id4=e4.id if e4.id is not None else -1, data4=dname(e4.data))
@@ -102,8 +134,8 @@ DAYS_POOL = [0, 1, 365, 10957, 11016, 13879, 17166, 19000, 24855, 24856, 40000, 
 OFFS_POOL = [-840, -720, -570, -330, -60, -1, 0, 1, 60, 345, 330, 570, 765, 840]
 
 
-def rand_case(rnd, us=None, rep=None):
-    rep = rep or rnd.choice(["dt", "iso", "iso", "isoZ"])
+def rand_case(rnd, us=None, rep=None, nested=False):
+    rep = rep or rnd.choice(["dt", "iso", "iso", "isoZ", "dt", "dtfold1", "dtfold0"])
     off = 0 if rep == "isoZ" else rnd.choice(OFFS_POOL + [rnd.randrange(-840, 841)])
     d = rnd.choice(DAYS_POOL + [0, 0] + [rnd.randrange(0, 47482)] * 3)
     # day 0 with a positive offset is a 1970 timestamp whose instant lies before the epoch: inside the property's range
@@ -115,4 +147,10 @@ def rand_case(rnd, us=None, rep=None):
     ds = rnd.choice([0, 1, 59, 86399, 86400, 2591999, rnd.randrange(0, 2592000)])
     dus = rnd.choice([0, 1, 999, 1000, 500000, 999999, rnd.randrange(0, 1000000)])
     eid = rnd.choice([None, 0, 7, 123456])
-    return (rep, d, s, us, off, dkind, dneg, ds, dus, rnd.choice(DATAS), eid)
+    case = (rep, d, s, us, off, dkind, dneg, ds, dus, rnd.choice(DATAS), eid)
+    if nested:
+        return case
+    if rnd.random() < 0.4:
+        c2 = rand_case(rnd, nested=True)
+        case += ((c2[0], c2[1], c2[2], c2[3], c2[4], rnd.choice([None, (c2[7], c2[8])])),)
+    return case
